@@ -1011,3 +1011,59 @@ Proof.
   intros n HW Hnd H. rewrite <- (gath_of_explicit n Wg order iv tl Hnd HW).
   apply (sync_states_run g dst Wg mds _ order H).
 Qed.
+
+(* ------------------------------------------------------------------ structural sufficient condition *)
+(* what an ideal sync delivers for a state, and what it leaves in the slots of ranks outside the group *)
+Definition ideal_of_state (s : state) : gs :=
+  match s with STensor t => GT t | SList l => GL l | SDict kv => GD (sort_keys kv) | SObj v => GO v end.
+Definition filler (s : state) : gs := match s with SDict _ => GD [] | _ => GEmpty end.
+
+(* the states held by the ranks under one key agree in kind and satisfy the hypotheses of the
+   corresponding losslessness theorem *)
+Definition kind_ok (g : list nat) (ss : nat -> state) : Prop :=
+  let n := List.length g in
+  (exists ts d z, forall i, i < n -> ss i = STensor (ts i) /\ tens_ok d z (ts i)) \/
+  (exists vs, forall i, i < n -> ss i = SObj (vs i)) \/
+  (exists xss d z, (forall i, i < n -> ss i = SList (xss i) /\ forall t, In t (xss i) -> tens_ok d z t) /\
+      (exists i, i < n /\ xss i <> []) /\ ((exists i, i < n /\ xss i = []) -> g = seq 0 n)) \/
+  (exists kvs ks d z, ks <> [] /\
+      forall i, i < n -> ss i = SDict (kvs i) /\ map fst (sort_keys (kvs i)) = ks /\
+                         forall kt, In kt (kvs i) -> tens_ok d z (snd kt)).
+
+Lemma ideal_family_ext g dst Wg ss ss' iv iv' tl :
+  (forall i, i < List.length g -> ss i = ss' i) -> (forall j, j < List.length g -> iv j = iv' j) ->
+  ideal_family g dst Wg ss' iv' tl -> ideal_family g dst Wg ss iv tl.
+Proof.
+  unfold ideal_family. intros Hs Hi H.
+  refine (extK g (fun i => state_sync dst i Wg (ss' i)) _ _ _ _ _).
+  - intros i Hin. apply in_seq in Hin. rewrite Hs by lia. reflexivity.
+  - etransitivity; [exact H|]. f_equal. apply map_ext. intros i. destruct (receives dst i); [|reflexivity].
+    do 2 f_equal. apply map_ext_in. intros j Hj. apply in_seq in Hj. symmetry. apply Hi. lia.
+Qed.
+
+Lemma ideal_of_kind g dst Wg ss : let n := List.length g in
+  n > 0 -> n <= Wg -> dst_ok g dst -> kind_ok g ss ->
+  ideal_family g dst Wg ss (fun j => ideal_of_state (ss j)) (filler (ss 0)).
+Proof.
+  intros n Hn HW Hok [(ts & d & z & H)|[(vs & H)|[(xss & d & z & H & H1 & H2)|(kvs & ks & d & z & Hks & H)]]].
+  - rewrite (proj1 (H 0 Hn)). cbn [filler].
+    apply (ideal_family_ext g dst Wg ss (fun i => STensor (ts i)) _ (fun j => GT (ts j))).
+    + intros i Hi. apply (H i Hi).
+    + intros j Hj. rewrite (proj1 (H j Hj)). reflexivity.
+    + apply (ideal_tensor g dst Wg ts d z Hn Hok). intros i Hi. apply (H i Hi).
+  - rewrite (H 0 Hn). cbn [filler].
+    apply (ideal_family_ext g dst Wg ss (fun i => SObj (vs i)) _ (fun j => GO (vs j))).
+    + exact H.
+    + intros j Hj. rewrite (H j Hj). reflexivity.
+    + apply (ideal_obj g dst Wg vs Hn Hok).
+  - rewrite (proj1 (H 0 Hn)). cbn [filler].
+    apply (ideal_family_ext g dst Wg ss (fun i => SList (xss i)) _ (fun j => GL (xss j))).
+    + intros i Hi. apply (H i Hi).
+    + intros j Hj. rewrite (proj1 (H j Hj)). reflexivity.
+    + apply (ideal_list g dst Wg xss d z Hn HW Hok); [|exact H1|exact H2]. intros i Hi. apply (H i Hi).
+  - rewrite (proj1 (H 0 Hn)). cbn [filler].
+    apply (ideal_family_ext g dst Wg ss (fun i => SDict (kvs i)) _ (fun j => GD (sort_keys (kvs j)))).
+    + intros i Hi. apply (H i Hi).
+    + intros j Hj. rewrite (proj1 (H j Hj)). reflexivity.
+    + apply (ideal_dict g dst Wg kvs ks d z Hn HW Hok Hks); intros i Hi; apply (H i Hi).
+Qed.
